@@ -289,7 +289,8 @@ def dreduce_tie(ctx, exe, cases):
 
 
 def scan_oracle(c, toks):
-    d = "parallel_scan(blocked_range(%d,%d,%d), %s_partitioner), %d threads, spin %d" % (c[2], c[3], c[4], PARTS[c[0]], c[1], c[5])
+    d = "parallel_scan(blocked_range(%d,%d,%d), %s_partitioner), %d threads, spin %d%s" % (c[2], c[3], c[4], PARTS[c[0]], c[1], c[5],
+        (", the body of every %d-th element waits for a task enqueued into another arena (task_group::wait)" % c[6]) if len(c) > 6 and c[6] else "")
     if not toks or toks[-1] == "HANG" or toks[0].startswith("CRASH"):
         return ("scan-hang-or-crash", d)
     a, b, r = [int(x) for x in toks[:3]]
@@ -377,7 +378,12 @@ def run(ctx):
     dreduce_tie(ctx, exe, nonempty)
     # the model runner takes (lo hi g): adapt by a second pass is not needed — see modelrun adapter below
     sc = [[rng.choice([0, 1]), rng.choice([1, 2, 4, 16]), 0, rng.choice([0, 1, 2, 10, 100, 1000, 5000]), rng.choice([1, 2, 10, 100]), rng.choice([0, 100, 3000])] for _ in range(ctx.scale(150, 3000))]
-    ctx.rules.append("scan (oracle only): every element gets exactly one final pass whose incoming prefix is lo..i-1; the returned sum is the full reduction")
+    # bodies that wait for other work in the middle of a subrange (task_group::wait on a task enqueued into another arena): the waiting thread runs tasks of
+    # its own pool meanwhile — the right sibling of the task it is in must then not continue on the body whose call is still in flight
+    for j in range(ctx.scale(40, 600)):
+        n_ = rng.choice([2, 3, 4, 4, 6, 8, 16, 40])
+        sc.append([rng.choice([0, 0, 1]), rng.choice([2, 2, 3, 4]), 0, n_, rng.choice([1, 1, 2]), 0, rng.choice([1, 2, 3, n_])])
+    ctx.rules.append("scan (oracle only): every element gets exactly one final pass whose incoming prefix is lo..i-1; the returned sum is the full reduction; incl. bodies that perform a nested wait (run other tasks of their arena) in the middle of a subrange")
     oracle_tie(ctx, "scan", exe, ["scan"], sc, scan_oracle, bucket=lambda c: "scan %s P=%d" % (PARTS[c[0]], c[1]))
     ctx.rules.append("sort (oracle only): sorted permutation for random/sorted/reversed/one-inversion/all-equal/sawtooth inputs around the 500 and 4000 thresholds, comparators with ties")
     oracle_tie(ctx, "sort", exe, ["sort"], gen_sort(ctx, ctx.scale(120, 2000)), sort_oracle, bucket=lambda c: "sort n=%d" % (len(c) - 2),
